@@ -14,6 +14,9 @@ Definition ns_per_ms : Z := 1000000.
 Definition secs (n : Z) : Z := n * ns_per_s.
 Definition msecs (n : Z) : Z := n * ns_per_ms.
 
+Global Arguments secs : simpl never.
+Global Arguments msecs : simpl never.
+
 Definition unix (t : Z) : Z := t / ns_per_s.
 Definition millis (d : Z) : Z := Z.quot d ns_per_ms.
 
